@@ -390,10 +390,13 @@ func (e *kvElection) becomeLeader(token string, rev uint64) {
 	// Health failures are counted per term: a new term starts from zero.
 	e.healthFailureCount.Store(0)
 
-	e.isLeader.Store(true)
+	// Publish the term's identity before the claim: IsLeader(), Token() and
+	// LeaderID() are lock-free, so a reader that sees IsLeader()==true must
+	// already see this term's token (not an empty or previous one).
 	e.leaderID.Store(e.cfg.InstanceID)
 	e.token.Store(token)
 	e.revision.Store(rev)
+	e.isLeader.Store(true)
 	e.state.Store(StateLeader)
 	now := time.Now()
 	e.lastHeartbeat.Store(now)
